@@ -13,11 +13,12 @@ QUICK_RUNS = 16000
 THOROUGH_MIN_RUNS = 60000
 BATCH = 100
 CASE_WALL_S = 60.0
+ISOLATE = True      # every run in a forked child: no interpreter state leaks from one simulated server to the next
 RULE = ("case = the real ThreadWorker.run() main loop and real handler threads (baton-scheduled simulated threads over a "
         "simulated selector / executor / RLock) serving 1-6 scripted client actors issuing {connect, send request whole or in "
         "pieces, wait, keep-alive second request, close, reset, go silent}, applications that return at once or block for "
         "simulated seconds, optional TERM at a seeded time, threads 1-3, worker_connections 2-5, keepalive 0-3; every "
-        "scheduler decision among runnable simulated threads, forced pre-emption points at seeded system-call indices and "
+        "scheduler decision among runnable simulated threads, forced pre-emption points at seeded system-call indices, a fine-grained mode (switch after any simulated system call with probability 1/2 or 1/4) and "
         "short reads are drawn from the seed.  Invariants are checked on every kernel event, bounded liveness only where no "
         "fault is in flight.  distinct = distinct event-trace shapes (actor, event kind sequence); non-trivial = at least one "
         "connection was accepted")
@@ -60,6 +61,13 @@ def gen_client(rng, t0, silent_ok):
         if rng.randrange(4) == 0:
             cut = rng.randrange(1, len(r))
             ops += [["send", r[:cut]], ["wait", round(rng.uniform(0.05, 1.5), 2)], ["send", r[cut:]]]
+        elif not last and rng.randrange(3) == 0:
+            # pipelined: the next request is already in the socket buffer when this one finishes
+            path2 = rng.choice(["/a", "/b", "/sleep/0.3"])
+            if path2.startswith("/sleep/"):
+                total_app += float(path2[7:])
+            ops.append(["send", r + req(path2)])
+            ops.append(["recv", 30.0])
         else:
             ops.append(["send", r])
         ops.append(["recv", 30.0])
@@ -90,13 +98,14 @@ def make_case(index, rng, tier):
     return {"threads": threads, "worker_connections": wc, "keepalive": ka, "clients": clients, "term": term,
             "graceful_timeout": rng.choice([1, 2, 4]), "at_capacity": at_capacity,
             "buggify": {"short_recv": rng.randrange(3) == 0, "spurious_select": False},
-            "preempt": rng.randrange(0, 6)}
+            "preempt": rng.randrange(0, 6), "fine": rng.choice([0, 0, 0, 2, 4])}
 
 
 def run(case, choices):
     res = Result()
     sim = Sim(choices, max_steps=200000, max_time=200.0)
     sim.buggify = dict(case["buggify"])
+    sim.fine_interleave = case.get("fine", 0)
     wc, ka, gt = case["worker_connections"], case["keepalive"], case["graceful_timeout"]
     w = W.WorkerWorld(sim, "gthread", {"timeout": 30, "graceful_timeout": gt, "keepalive": ka, "threads": case["threads"],
                                        "worker_connections": wc})
@@ -173,23 +182,12 @@ def run(case, choices):
             quiescent_check(s)
     sim.observers.append(observer)
 
-    # a main loop that never blocks (futures.wait([]) at capacity) would hang the simulation: detect spinning
-    main_ticks = {"n": 0, "t": -1.0}
+    # a main loop that never blocks (futures.wait([]) at capacity) burns CPU: the kernel charges it simulated time and reports it
+    def on_spin(t):
+        if t.is_main and t.proc is p and state["spin"] is None:
+            state["spin"] = (sim.now, len(open_socks), getattr(w.worker, "nr_conns", None), len(getattr(w.worker, "futures", ())))
+    sim.on_spin = on_spin
     orig_tick = sim.tick
-
-    def tick(kind="sys"):
-        t = current_task()
-        if t is not None and t.is_main and t.proc is p:
-            if sim.now != main_ticks["t"]:
-                main_ticks["t"] = sim.now
-                main_ticks["n"] = 0
-            main_ticks["n"] += 1
-            if main_ticks["n"] > 3000 and state["spin"] is None:
-                state["spin"] = (sim.now, len(open_socks), getattr(w.worker, "nr_conns", None), len(getattr(w.worker, "futures", ())))
-                # park the spinning thread so that the rest of the world can go on
-                sim.block(lambda: False, None, False, False)
-        return orig_tick(kind)
-    sim.tick = tick
 
     if case["term"] is not None:
         def term():
@@ -247,6 +245,34 @@ def run(case, choices):
                 elif r.get("timeout"):
                     res.violate("C13:starved-readable:at-capacity", "client %s got no response within 30 s at capacity; log=%r; %s"
                                 % (c.name, c.log[-6:], ctx()))
+            # a request that arrived on a kept-alive connection well before its keep-alive deadline must be served
+            if regime == "under-capacity":
+                sent_t = [e[0] for e in c.log if e[1] == "sent"]
+                n_complete_sends = 0
+                send_times = []
+                acc = ""
+                for op_ in spec["ops"]:
+                    pass
+                # reconstruct per-request send completion times from the client's log and script
+                reqs_in_send = [op_[1].count("\r\n\r\n") for op_ in spec["ops"] if op_[0] == "send"]
+                send_op = []
+                for k_, nreq_ in enumerate(reqs_in_send):
+                    if k_ < len(sent_t):
+                        send_times += [sent_t[k_]] * nreq_
+                        send_op += [k_] * nreq_
+                for i_, r_ in enumerate(c.responses):
+                    if i_ == 0 or r_["status"] is not None:
+                        continue
+                    prev = c.responses[i_ - 1]
+                    if not prev["complete"] or prev["at"] is None or i_ >= len(send_times):
+                        continue
+                    kept = b"keep-alive" in prev.get("headers", {}).get(b"connection", b"").lower()
+                    if kept and send_times[i_] <= prev["at"] + ka - 0.5 and (r_.get("eof") or r_.get("rst")):
+                        same = send_op[i_] == send_op[i_ - 1]
+                        res.violate("C13:pending-request-dropped:%s" % ("pipelined-in-one-segment" if same else "separate-send"),
+                                    "client %s: request %d was sent at t=%.2f on a connection the server had just kept alive (response %d at "
+                                    "t=%.2f, keepalive=%s) and the server closed it without answering; log=%r; %s"
+                                    % (c.name, i_, send_times[i_], i_ - 1, prev["at"], ka, c.log[-6:], ctx()))
             # idle keep-alive connections are closed once the keep-alive time has passed
             reached = any(e[1] in ("eof", "no-eof") for e in c.log)
             if c.script and c.script[-1][0] == "await-eof" and reached and not spec["silent"] and c.responses \
@@ -286,7 +312,6 @@ def run(case, choices):
                       "clients": [c["ops"][:6] for c in case["clients"]][:3], "accepted": state["accepted"],
                       "responses": sum(len(c.responses) for c in clients), "sim_seconds": round(sim.now, 2)}
     finally:
-        sim.tick = orig_tick
         sim.shutdown()
     return res
 
@@ -300,6 +325,8 @@ def shrink(case):
         yield dict(case, term=None)
     if case["preempt"]:
         yield dict(case, preempt=0)
+    if case.get("fine"):
+        yield dict(case, fine=0)
     if case["buggify"]["short_recv"]:
         yield dict(case, buggify=dict(case["buggify"], short_recv=False))
     for i, c in enumerate(cl):
